@@ -20,7 +20,8 @@ KINDS = {
     'v': ('Parameter', False, {}),
     'l': ('Parameter', True, {'instantiate': True}),
     's': ('Parameter', True, {}),
-    'k': ('Parameter', True, {'constant': True}),
+    'k': ('Parameter', True, {'constant': True, 'allow_refs': True}),
+    'kn': ('Parameter', False, {'constant': True}),
     'g': ('Parameter', False, {'per_instance': False}),
     'n': ('Number', False, {'bounds': (0, 10)}),
     'sel': ('Selector', False, {}),
@@ -95,9 +96,10 @@ class ClassWorld:
         big = tier == 'thorough'
         shape = weighted(rng, [('single', 1), ('chain2', 3), ('chain3', 2), ('fork', 1.5), ('diamond', 2)])
         bases = SHAPES[shape]
-        pool = ['v', 'l', 's', 'k', 'g', 'n', 'sel', 'esel'] + (['r'] if prop == 'C14' or rng.random() < 0.3 else [])
+        pool = ['v', 'l', 's', 'k', 'g', 'n', 'sel', 'esel', 'kn'] + (['r'] if prop == 'C14' or rng.random() < 0.3 else [])
         if prop == 'C14':
-            used = ['k', 'v'] + [p for p in pool if p not in ('k', 'v') and rng.random() < 0.4]
+            used = ['k', 'v'] + [p for p in pool + ['kn', 'kn'] if p not in ('k', 'v') and rng.random() < 0.4]
+            used = list(dict.fromkeys(used))
         else:
             used = rng.sample(pool, rng.randint(2, 4))
         decl = []
@@ -114,16 +116,16 @@ class ClassWorld:
             'C12': [('new', 4), ('iset', 5), ('cset', 4), ('imut', 3), ('cmut', 2), ('iattr', 2), ('cattr', 1.5), ('iobj', 1.5), ('cobj', 1),
                     ('touch', 1.5), ('lsp', 0.5), ('newdyn', 1.2)],
             'C13': [('new', 3), ('iset', 3), ('cset', 5), ('addp', 3), ('lsp', 3), ('getp', 2), ('inp', 1), ('vals', 2), ('repr', 1), ('touch', 1),
-                    ('watchnew', 1), ('cparam', 2.5)],
+                    ('watchnew', 1), ('cparam', 2.5), ('poison', 1.5)],
             'C14': [('new', 3), ('newk', 2), ('kset', 5), ('kupdate', 2), ('cset', 3), ('rset', 2), ('ec_open', 3), ('ec_close', 3), ('ec_raise', 1.5),
-                    ('touch', 1.5), ('iset', 2), ('nameset', 1)],
+                    ('touch', 1.5), ('iset', 2), ('nameset', 1), ('kref', 1.5), ('srcset', 1.5)],
         }[prop]
         depth = 0
         for _ in range(n_ops):
             k = weighted(rng, table)
             op = {'op': k, 'c': rng.randrange(nc), 'i': rng.randint(0, 5), 'p': rng.choice(used)}
             if k == 'cset' and prop == 'C14':
-                op['p'] = rng.choice(['k', 'k', 'r'] if 'r' in used else ['k'])
+                op['p'] = rng.choice([q for q in ('k', 'k', 'kn', 'kn', 'r') if q in used])
             if k == 'kset':
                 op['how'] = rng.choice(['same', 'equal', 'different'])
             if k == 'rset':
@@ -239,7 +241,7 @@ class _Run:
             return self.counter % 10
         if p == 'sel':
             return 'o1'
-        if p == 'esel':
+        if p in ('esel', 'kn'):
             return None
         return self.fresh_int()
 
@@ -283,6 +285,8 @@ class _Run:
         self.insts = []             # real
         self.im = []                # model: {'c': ci, 'values': {p: obj}, 'copies': {p: PM}}
         self.ec = []                # open edit_constant contexts: (cm, inst index)
+        self.ref_src = None         # source object whose Parameter is offered as a reference to constants
+        self.veto_installed = False
         self.cache_read = set()     # classes whose namespace was read (probe)
         self.probe = {'inherit_cset': False, 'mut': False, 'stale_risk': False, 'ec_raise': False, 'cset_before_attempt': False}
 
@@ -473,11 +477,13 @@ class _Run:
         for _, i in self.ec:
             depth_by_inst[i] = depth_by_inst.get(i, 0) + 1
         for i, (o, m) in enumerate(zip(self.insts, self.im)):
-            if 'k' in self.visible(m['c']):
-                real = o.k
-                exp = m['values'].get('k')
-                if real is not exp:
-                    self.viol('C14.identity', f"{where}: constant I{i}.k holds {self.describe(real)}, expected the object {self.describe(exp)}")
+            for q in ('k', 'kn'):
+                if q in self.visible(m['c']):
+                    real = getattr(o, q)
+                    exp = m['values'].get(q)
+                    if real is not exp:
+                        self.viol('C14.identity', f"{where}: constant I{i}.{q} holds {self.describe(real)}, expected the object {self.describe(exp)} "
+                                                  f"it had at construction")
             for p in ('k', 'r'):
                 if p in self.visible(m['c']):
                     sp = self.static_param(m['c'], p)
@@ -494,7 +500,7 @@ class _Run:
                 if o.r != pm.default:
                     self.viol('C14.identity', f"{where}: read-only I{i}.r is {o.r!r}, expected {pm.default!r}")
         for ci in range(len(self.classes)):
-            for p in ('k', 'r'):
+            for p in ('k', 'r', 'kn'):
                 if p in self.visible(ci):
                     k, pm = self.gov(ci, p)
                     real = getattr(self.classes[ci], p)
@@ -531,7 +537,7 @@ class _Run:
             v = {'n': (self.counter % 9) + 1, 'sel': ['o1', 'o2', 'o3'][self.counter % 3]}.get(p)
             self.counter += 1
             if v is None:
-                v = self.new_list() if KINDS[p][1] else self.fresh_int()
+                v = self.new_list() if (KINDS[p][1] or p == 'kn') else self.fresh_int()
             setattr(self.classes[ci], p, v)
             if kk != ci:
                 # copy-on-write: K{ci} now owns a copy of the inherited Parameter, with its own mutable attributes
@@ -547,7 +553,7 @@ class _Run:
             pm.default = v
         elif k == 'iset' and has_inst:
             m = self.im[i]
-            if p not in self.visible(m['c']) or p in ('k', 'r', 'esel'):
+            if p not in self.visible(m['c']) or p in ('k', 'r', 'esel', 'kn'):
                 return
             v = {'n': (self.counter % 9) + 1, 'sel': ['o1', 'o2', 'o3'][self.counter % 3]}.get(p)
             self.counter += 1
@@ -674,6 +680,38 @@ class _Run:
                 self.probe['stale_risk'] = True
             self.classes[ci].param.add_parameter(name, param.Parameter(default=d))
             self.extra[ci][name] = d
+        elif k == 'poison':
+            # a class-level watcher vetoes a value (after looking at the namespace): the rejected class-level assignment must
+            # leave nothing behind - in particular no copied Parameter in the namespace cache of an inheriting subclass
+            if 'v' not in self.visible(ci):
+                return
+            if not self.veto_installed:
+                self.veto_installed = True
+
+                def veto(event):
+                    if event.new == 'POISON':
+                        list(event.cls.param)
+                        event.cls.param['v']
+                        raise RuntimeError('vetoed by a class-level watcher')
+                root = self.gov(0, 'v')[0] if 'v' in self.visible(0) else None
+                if root is None:
+                    return
+                self.classes[root].param.watch(veto, ['v'])
+            kk, pm = self.gov(ci, 'v')
+            if isinstance(pm.default, str):
+                return
+            try:
+                setattr(self.classes[ci], 'v', 'POISON')
+            except RuntimeError:
+                self.out.stats['reject.class_level_veto'] += 1
+                if any(c in self.cache_read for c in range(nc)):
+                    self.probe['stale_risk'] = True
+                return
+            # nobody vetoed (e.g. the class owns a Parameter created after the watcher was installed): a plain class-level set
+            if kk != ci:
+                self.own[ci]['v'] = pm.clone(deep_attrs=True)
+                pm = self.own[ci]['v']
+            pm.default = 'POISON'
         elif k == 'cparam':
             # a new Parameter object assigned over an existing Parameter name (declared here or inherited)
             q = 'v' if 'v' in self.visible(ci) else None
@@ -727,6 +765,23 @@ class _Run:
                 self.viol('C14.raises', f"constant I{i}.k was rebound to {self.describe(new)} ({how}) outside edit_constant")
             self.ensure_copy(i, 'k')
             m['values']['k'] = new
+        elif k == 'kref' and has_inst:
+            # a reference handed to a constant parameter after construction: rejected, and it must not become a link
+            m = self.im[i]
+            if 'k' not in self.visible(m['c']) or any(ii == i for _, ii in self.ec):
+                return
+            if self.ref_src is None:
+                RS = type('RefSrc', (param.Parameterized,), {'x': param.Parameter(default=None)})
+                self.ref_src = RS(x=self.new_list())
+            try:
+                self.insts[i].k = self.ref_src.param.x
+            except TypeError:
+                self.out.stats['reject.constant_reference'] += 1
+                return
+            self.viol('C14.raises', f"a reference was accepted by constant I{i}.k outside edit_constant")
+        elif k == 'srcset':
+            if self.ref_src is not None:
+                self.ref_src.x = self.new_list()          # no constant may follow this (a rejected reference left no link)
         elif k == 'kupdate' and has_inst:
             m = self.im[i]
             if 'k' not in self.visible(m['c']):
